@@ -809,7 +809,7 @@ mut("c14-flag-silent-closure-before-parse", "C14", "cmd/gts/delete.go",
     silent=True, note="a closure defined before Parse reads the option when it is called")
 mut("c14-replay-reported-as-miss", "C14", "cmd/gts/io.go", "\tif d.outfile != os.Stdout {\n\t\tos.Remove(f.Name())\n\t}\n\n\treturn true, nil\n", "\tif d.outfile != os.Stdout {\n\t\tos.Remove(f.Name())\n\t\treturn false, nil\n\t}\n\n\treturn true, nil\n", ["REPLAY-HIT|main.ioDelegate.TryCache|replay"])
 mut("c14-digest-before-read", "C14", "cmd/gts/infix.go", "\th.Reset()\n\tr := attach(h, f)\n\tscanner := seqio.NewAutoScanner(r)\n", "\th.Reset()\n\tr := attach(h, f)\n\thostSum := h.Sum(nil)\n\tscanner := seqio.NewAutoScanner(r)\n", ["DIGEST-AFTER-READ|main.infixFunc|attach#1"],
-    old2="\t\tctx.Raise(fmt.Errorf(\"host sequence file %q does not contain a sequence\", *hostPath))\n\t}\n\thostSum := h.Sum(nil)\n", new2="\t\tctx.Raise(fmt.Errorf(\"host sequence file %q does not contain a sequence\", *hostPath))\n\t}\n")
+    old2="\t\treturn ctx.Raise(fmt.Errorf(\"host sequence file %q does not contain a sequence\", *hostPath))\n\t}\n\thostSum := h.Sum(nil)\n", new2="\t\treturn ctx.Raise(fmt.Errorf(\"host sequence file %q does not contain a sequence\", *hostPath))\n\t}\n")
 mut("c01-locus-length-contig-first", "C01", "seqio/genbank.go", "\tlength := gb.Origin.Len()\n\tif length == 0 {\n\t\tlength = gb.Fields.Contig.Region.Len()\n\t}\n", "\tlength := gb.Fields.Contig.Region.Len()\n\tif length == 0 {\n\t\tlength = gb.Origin.Len()\n\t}\n", ["LOCUS-LENGTH|seqio.GenBank.String|LOCUS-length"])
 mut("c01-locus-length-silent-leq", "C01", "seqio/genbank.go", "\tlength := gb.Origin.Len()\n\tif length == 0 {\n", "\tlength := gb.Origin.Len()\n\tif length <= 0 {\n", silent=True)
 mut("c05-reverse-fill-skips-middle", "C05", "sequence.go", "\tp := make([]byte, Len(seq))\n\tcopy(p, seq.Bytes())\n\tflip.Bytes(p)\n", "\tq := seq.Bytes()\n\tp := make([]byte, len(q))\n\tfor i, j := 0, len(q)-1; i < j; i, j = i+1, j-1 {\n\t\tp[i], p[j] = q[j], q[i]\n\t}\n\t_ = flip.Bytes\n", ["REVERSE-BYTES|gts.Reverse|bytes"])
@@ -832,6 +832,9 @@ mut("c19-within-bounds-swapped", "C19", "feature.go", "\t\treturn LocationWithin
 mut("c19-strand-both-uncounted", "C19", "location.go", "\t\tcase StrandReverse:\n\t\t\tr++\n\t\tdefault:\n\t\t\tf++\n\t\t\tr++\n\t\t}\n\t}\n\tswitch {\n\tcase r == 0:\n\t\treturn StrandForward\n\tcase f == 0:\n\t\treturn StrandReverse\n", "\t\tcase StrandReverse:\n\t\t\tr++\n\t\t}\n\t}\n\tswitch {\n\tcase f > 0 && r == 0:\n\t\treturn StrandForward\n\tcase r > 0 && f == 0:\n\t\treturn StrandReverse\n", ["STRAND-TALLY|gts.checkStrand"])
 mut("c19-strand-silent-explicit-both-case", "C19", "location.go", "\t\tcase StrandReverse:\n\t\t\tr++\n\t\tdefault:\n\t\t\tf++\n\t\t\tr++\n\t\t}\n", "\t\tcase StrandReverse:\n\t\t\tr++\n\t\tcase StrandBoth:\n\t\t\tf += 1\n\t\t\tr += 1\n\t\t}\n", silent=True)
 mut("c19-strand-silent-if-chain", "C19", "location.go", "\tswitch {\n\tcase r == 0:\n\t\treturn StrandForward\n\tcase f == 0:\n\t\treturn StrandReverse\n\tdefault:\n\t\treturn StrandBoth\n\t}\n}\n\nfunc CheckStrand", "\tif r == 0 {\n\t\treturn StrandForward\n\t}\n\tif f == 0 {\n\t\treturn StrandReverse\n\t}\n\treturn StrandBoth\n}\n\nfunc CheckStrand", silent=True)
+
+mut("c14-raise-dropped-reverted", "C14", "cmd/gts/search.go", "\t\t\treturn ctx.Raise(fmt.Errorf(\"query sequence file %q does not contain a sequence\", *queryPath))\n", "\t\t\tctx.Raise(fmt.Errorf(\"query sequence file %q does not contain a sequence\", *queryPath))\n", ["RAISE-RETURNED|main.searchFunc|Raise#2"], note="the repaired defect, reintroduced")
+mut("c14-raise-silent-through-variable", "C14", "cmd/gts/search.go", "\t\t\treturn ctx.Raise(fmt.Errorf(\"query sequence file %q does not contain a sequence\", *queryPath))\n", "\t\t\treturn (ctx.Raise(fmt.Errorf(\"query sequence file %q does not contain a sequence\", *queryPath)))\n", silent=True)
 
 # ---------------------------------------------------------------- refactoring round 3
 mut("c02-normalise-silent-tagless-switch", "C02", "location.go",
